@@ -134,24 +134,26 @@ impl std::fmt::Write for Buf {
 fn telemetry(ch: Channel, a: U14, b: U14, cn: Option<ControllerNumber>) -> Result<bool, Panicked> {
     api(L::telemetry_display_fromstr, || {
         let mut buf = Buf { b: [0; 64], n: 0 };
-        write!(buf, "{}", ch).unwrap();
+        // a failure of the harness's own plumbing (buffer, utf-8, parse) is a mismatch to count, not
+        // a panic to blame on the crate
+        let mut ok = write!(buf, "{}", ch).is_ok();
         let n1 = buf.n;
-        write!(buf, "{}", a).unwrap();
+        ok &= write!(buf, "{}", a).is_ok();
         let n2 = buf.n;
-        write!(buf, "{}", b).unwrap();
+        ok &= write!(buf, "{}", b).is_ok();
         let n3 = buf.n;
         if let Some(k) = cn {
-            write!(buf, "{}", k).unwrap();
+            ok &= write!(buf, "{}", k).is_ok();
         }
-        let s = std::str::from_utf8(&buf.b[..buf.n]).unwrap();
-        let c: Channel = s[..n1].parse().unwrap();
-        let x: U14 = s[n1..n2].parse().unwrap();
-        let y: U14 = s[n2..n3].parse().unwrap();
+        let Ok(s) = std::str::from_utf8(&buf.b[..buf.n]) else { return false };
+        let c = s[..n1].parse::<Channel>();
+        let x = s[n1..n2].parse::<U14>();
+        let y = s[n2..n3].parse::<U14>();
         let kk = match cn {
-            Some(k) => s[n3..].parse::<ControllerNumber>().unwrap() == k,
+            Some(k) => s[n3..].parse::<ControllerNumber>() == Ok(k),
             None => true,
         };
-        c == ch && x == a && y == b && kk
+        ok && c == Ok(ch) && x == Ok(a) && y == Ok(b) && kk
     })
 }
 
@@ -914,7 +916,9 @@ impl<'a> Exec<'a> {
             self.w_c14 = true;
             let ok = telemetry(x.channel(), x.number(), x.value(), None)?;
             self.p.telemetry_calls += 1;
-            debug_assert!(ok);
+            if !ok {
+                self.p.telemetry_mismatch += 1;
+            }
         }
         let info = self.obs.on_poll(c, img, self.now, unchanged, &mut self.sink);
         if info.what < 2 {
@@ -1046,8 +1050,11 @@ impl<'a> Exec<'a> {
                     (ch, is_cc)
                 })
             })?;
-            debug_assert_eq!(ch_acc, if is_ch { Some(chan) } else { None });
-            debug_assert_eq!(ty_cc, ccv.is_some());
+            // classification by the crate vs. by the harness: not judged here (that is C02/C03, which
+            // are not simulation targets), only counted
+            if ch_acc != if is_ch { Some(chan) } else { None } || ty_cc != ccv.is_some() {
+                self.p.accessor_mismatch += 1;
+            }
             if repr == REPR_STRUCTURED {
                 api(L::to_other_from_other, || {
                     let st = raw.to_structured();
@@ -1098,18 +1105,24 @@ impl<'a> Exec<'a> {
         let i_po: Out2 = api(L::pn_accessors, || [r_po[0].as_ref().map(pn_img), r_po[1].as_ref().map(pn_img)])?;
         if let Some(x) = r_cc.as_ref() {
             self.p.reports_cc14 += 1;
-            telemetry(x.channel(), x.value(), x.value(), Some(x.msb_controller_number()))?;
+            if !telemetry(x.channel(), x.value(), x.value(), Some(x.msb_controller_number()))? {
+                self.p.telemetry_mismatch += 1;
+            }
             self.p.telemetry_calls += 1;
         }
         if let Some(x) = r_pn.as_ref() {
             self.p.reports_pn += 1;
-            telemetry(x.channel(), x.number(), x.value(), None)?;
+            if !telemetry(x.channel(), x.number(), x.value(), None)? {
+                self.p.telemetry_mismatch += 1;
+            }
             self.p.telemetry_calls += 1;
         }
         for x in r_po.iter().flatten() {
             self.p.reports_polling_feed += 1;
             self.w_c14 = true;
-            telemetry(x.channel(), x.number(), x.value(), None)?;
+            if !telemetry(x.channel(), x.number(), x.value(), None)? {
+                self.p.telemetry_mismatch += 1;
+            }
             self.p.telemetry_calls += 1;
         }
         for (k, t) in t5.iter().enumerate() {
